@@ -334,6 +334,24 @@ reset_names()
 }
 
 int
+quiet_enter()
+{
+  const int saved = my_tid;
+  if (saved >= 0) {
+    std::unique_lock<std::mutex> lk(mu);
+    // keep the current quantum line open: nothing is appended while quiet
+  }
+  my_tid = -1;
+  return saved;
+}
+
+void
+quiet_leave(int saved)
+{
+  my_tid = saved;
+}
+
+int
 current_tid()
 {
   return my_tid;
